@@ -12,7 +12,7 @@ if os.path.exists(fp):
     os.unlink(fp)
 for pid in sorted(props.PROPS):
     for tier in ('quick', 'thorough'):
-        env = dict(os.environ, OFVERIF_EVIDENCE_DIR='/tmp/of-freeze-ev')
+        env = dict(os.environ, OFVERIF_EVIDENCE_DIR='/tmp/of-freeze-ev', OFVERIF_FREEZING='1')
         r = subprocess.run([os.path.join(V, 'check'), pid, '--tier', tier], env=env, stdout=subprocess.PIPE, universal_newlines=True)
         ev = json.load(open('/tmp/of-freeze-ev/%s.json' % pid))
         out.setdefault(pid, {})[tier] = dict((k, max(1, int(v['instances'] * 0.6))) for k, v in ev['coverage']['per_rule'].items())
